@@ -486,10 +486,40 @@ func init() { registerReplay(c07Prop) }
 var c07Hostile = []string{"DBLINK      X:", "DBLINK      X", "REFERENCE   1234", "REFERENCE   ", "LOCUS", "ORIGIN", "ORIGIN      ", "//", "FEATURES", "CONTIG      join(",
 	"CONTIG      join(A:1..", "ABCDEFGHIJKLMN   x", "  ORGANISM", "            ", "     gene            ", "     misc_recombination_x 1..20", "     gene 1..20", "                     /note=\"", "                     /", "        1 ", ">", "\r", "\x00"}
 
+// c07BlankFields: every field name of the flat file with its value replaced by nothing but 0..3 blanks.
+var c07BlankFields = func() []string {
+	var out []string
+	for _, name := range []string{"LOCUS", "DEFINITION", "ACCESSION", "VERSION", "DBLINK", "KEYWORDS", "SOURCE", "  ORGANISM", "REFERENCE", "  AUTHORS", "  CONSRTM",
+		"  TITLE", "  JOURNAL", "   PUBMED", "  REMARK", "COMMENT", "FEATURES", "ORIGIN", "CONTIG", "XFIELD"} {
+		for k := 0; k <= 3; k++ {
+			out = append(out, fmt.Sprintf("%-12s", name)+strings.Repeat(" ", k))
+		}
+	}
+	return out
+}()
+
 func c07MutateText(t *rapid.T, text string) (string, string) {
 	lines := strings.SplitAfter(text, "\n")
 	pickLine := func(name string) int { return rapid.IntRange(0, len(lines)-1).Draw(t, name) }
-	switch rapid.IntRange(0, 14).Draw(t, "mutkind") {
+	switch rapid.IntRange(0, 16).Draw(t, "mutkind") {
+	case 15:
+		// a value made of blanks only: the line keeps its first 12 columns, the rest becomes 0..3 blanks
+		i := pickLine("blankval")
+		ln := strings.TrimRight(lines[i], "\r\n")
+		if len(ln) > 12 {
+			lines[i] = ln[:12] + strings.Repeat(" ", rapid.IntRange(0, 3).Draw(t, "nblank")) + lines[i][len(ln):]
+		}
+		return strings.Join(lines, ""), "blank-value"
+	case 16:
+		// a field whose value is blank, put in place of a line or after it
+		i := pickLine("blankfield")
+		f := rapid.SampledFrom(c07BlankFields).Draw(t, "bf") + "\n"
+		if rapid.Bool().Draw(t, "bfreplace") {
+			lines[i] = f
+		} else {
+			lines[i] += f
+		}
+		return strings.Join(lines, ""), "blank-field"
 	case 14:
 		// feature key lines: widen a key beyond the key column, or shrink the blanks between key and location
 		var idx []int
